@@ -44,9 +44,46 @@ DSTStrings == {
     <<50,48,49,53,45,49,49,45,48,49>>,   \* 2015-11-01
     <<50,48,49,53,45,48,51,45,48,56>>,   \* 2015-03-08
     <<50,48,49,53,45,49,49,45,48,50>>,   \* 2015-11-02
-    <<50,48,49,53,45,48,51,45,48,57>>    \* 2015-03-09
+    <<50,48,49,53,45,48,51,45,48,57>>,   \* 2015-03-09
+    \* a day boundary: the calendar day of a zone-aware value depends on the zone it is read in
+    <<50,48,49,54,45,48,49,45,48,49>>,   \* 2016-01-01
+    <<50,48,49,53,45,49,50,45,51,49>>,   \* 2015-12-31
+    <<50,48,49,53,45,49,50,45,51,49,84,50,50,58,48,48,58,48,48,45,48,53,58,48,48>>,   \* 2015-12-31T22:00:00-05:00
+    <<50,48,49,54,45,48,49,45,48,49,84,48,51,58,48,48,58,48,48,90>>,   \* 2016-01-01T03:00:00Z
+    <<50,48,49,54,45,48,49,45,48,49,84,48,48,58,51,48,58,48,48,43,48,53,58,51,48>>,   \* 2016-01-01T00:30:00+05:30
+    <<50,48,49,53,45,49,50,45,51,49,84,50,51,58,51,48,58,48,48,45,49,50,58,48,48>>,   \* 2015-12-31T23:30:00-12:00
+    <<50,48,49,54,45,48,49,45,48,49,84,48,49,58,48,48,58,48,48,43,49,52,58,48,48>>,   \* 2016-01-01T01:00:00+14:00
+    <<50,48,49,54,45,48,49,45,48,49,84,48,48,58,48,48,58,48,48>>,   \* 2016-01-01T00:00:00
+    <<50,48,49,53,45,49,50,45,51,49,84,50,51,58,53,57,58,53,57>>,   \* 2015-12-31T23:59:59
+    <<50,48,49,54,45,48,49,45,48,49,84,48,53,58,51,48,58,48,48,43,48,53,58,51,48>>    \* 2016-01-01T05:30:00+05:30
   }
 StrSeq == SetToSeq(Strings \cup DSTStrings)
+\* fractions that lie exactly half way at some precision (decimal halves are not binary halves)
+FracStrings == {
+    <<49,50,58,51,52,58,53,54,46,50,56,53>>,   \* 12:34:56.285
+    <<49,50,58,51,52,58,53,54,46,49,52,53>>,   \* 12:34:56.145
+    <<49,50,58,51,52,58,53,54,46,53,54,53>>,   \* 12:34:56.565
+    <<49,50,58,51,52,58,53,54,46,53,55,53>>,   \* 12:34:56.575
+    <<49,50,58,51,52,58,53,54,46,53,48,48,53>>,   \* 12:34:56.5005
+    <<49,50,58,51,52,58,53,54,46,48,48,48,49,50,52,53>>,   \* 12:34:56.0001245
+    <<49,50,58,51,52,58,53,54,46,48,48,48,48,48,48,53>>,   \* 12:34:56.0000005
+    <<49,50,58,51,52,58,53,54,46,57,57,57,53>>,   \* 12:34:56.9995
+    <<49,50,58,51,52,58,53,54,46,52,57,57,57,57,57,57>>,   \* 12:34:56.4999999
+    <<49,50,58,51,52,58,53,54,46,50,53>>,   \* 12:34:56.25
+    <<49,50,58,51,52,58,53,54,46,51,53>>,   \* 12:34:56.35
+    <<49,50,58,51,52,58,53,54,46,52,53>>,   \* 12:34:56.45
+    <<49,50,58,51,52,58,53,54,46,48,48,53>>,   \* 12:34:56.005
+    <<49,50,58,51,52,58,53,54,46,48,49,53>>,   \* 12:34:56.015
+    <<49,50,58,51,52,58,53,54,46,48,50,53>>,   \* 12:34:56.025
+    <<50,51,58,53,57,58,53,57,46,57,57,57,57,57,57,53>>,   \* 23:59:59.9999995
+    <<49,50,58,51,52,58,53,54,46,49,50,51,52,53,54,53>>,   \* 12:34:56.1234565
+    <<50,48,49,53,45,49,50,45,51,49,84,50,51,58,53,57,58,53,57,46,57,57,57,57,57,57,53>>,   \* 2015-12-31T23:59:59.9999995
+    <<50,48,49,53,45,48,56,45,48,50,84,49,50,58,51,52,58,53,54,46,50,56,53,43,48,53,58,51,48>>,   \* 2015-08-02T12:34:56.285+05:30
+    <<49,50,58,51,52,58,53,54,46,49,52,53,45,48,52,58,48,48>>    \* 12:34:56.145-04:00
+  }
+FracSeq == SetToSeq(FracStrings)
+ASSUME ndJsonSerialize("fracstrings.ndjson", [i \in 1..Len(FracSeq) |-> [s |-> FracSeq[i]]])
+ASSUME \A x \in FracStrings : ParseISO(x, -1).ok = "y"
 DSTSeq == SetToSeq(DSTStrings)
 ASSUME ndJsonSerialize("dststrings.ndjson", [i \in 1..Len(DSTSeq) |-> [s |-> DSTSeq[i]]])
 ASSUME ndJsonSerialize("dtstrings.ndjson", [i \in 1..Len(StrSeq) |-> [s |-> StrSeq[i]]])
